@@ -59,6 +59,7 @@ type propCfg struct {
 	quickRuns, thoroughRuns     int
 	quickBudget, thoroughBudget time.Duration // wall caps per worker (a cap hit is reported, not hidden)
 	raceShare                   int           // every k-th worker runs the race build (0 = none)
+	freshEvery                  int           // plain workers re-execute every k-th run's tape in a fresh process (0 = never)
 	singleProc                  bool          // scheduler-based: GOMAXPROCS=1 per worker
 	requiredProbes              []string
 	rule                        string
@@ -156,6 +157,8 @@ type replayFile struct {
 	Desc     []string `json:"description"`
 	Trace    []string `json:"trace"`
 	OrigTape int      `json:"original_tape_len"`
+	// FreshOnly: the verdict was obtained in a fresh process (one process per execution).
+	FreshOnly bool `json:"fresh_process_verdict,omitempty"`
 	// History: runs (indices under Seed) that must be executed in the same process before the
 	// tape for the violation to appear: the result depends on what was parsed before.
 	History []int `json:"history_runs,omitempty"`
@@ -180,6 +183,7 @@ func runWorker(args []string) int {
 	out := fs.String("out", "", "")
 	budget := fs.Duration("budget", time.Hour, "")
 	digestOnly := fs.Bool("digest-only", false, "")
+	freshEvery := fs.Int("fresh-every", 0, "")
 	fs.Parse(args)
 	f := props.Registry[*prop]
 	if f == nil {
@@ -238,6 +242,51 @@ func runWorker(args []string) int {
 					lines = append(append([]string{}, lines[:40]...), fmt.Sprintf("... %d more events", len(lines)-40))
 				}
 				res.Samples = append(res.Samples, map[string]interface{}{"run": r, "config": again.Ctx.Desc, "events": lines, "nontrivial": rr.Ctx.NonT})
+			}
+		}
+		// fresh-process re-execution of whole runs: state that only matters early in a process's
+		// life (a slab handed out once, a table filled by the first caller) or that earlier runs
+		// of this worker left behind is invisible in-process; the same tape in a new process
+		// must give the same events and the same verdict
+		if rr.V == nil && !raceEnabled && *freshEvery > 0 && r%*freshEvery == 0 {
+			code, out, _ := execTapeProc(os.Args[0], *prop, *tier, tp.Rec, true)
+			res.Counters["probe_whole_run_in_fresh_process"]++
+			switch {
+			case code == 1:
+				// violation only in the fresh process: shrink with one process per candidate
+				class := classOf(out)
+				oracle := func(tape []uint32) (*core.Violation, []uint32) {
+					c, o, used := execTapeProc(os.Args[0], *prop, *tier, tape, true)
+					if c == 1 && classOf(o) == class {
+						if used == nil {
+							used = tape
+						}
+						return &core.Violation{Class: class}, used
+					}
+					return nil, nil
+				}
+				small, execs := core.Shrink(tp.Rec, class, oracle, 150, 40*time.Second)
+				fin := execTape(*prop, small, true, env) // description only; the verdict is the child's
+				rf := replayFile{Property: *prop, Seed: *seed, Run: r, Tier: *tier, Class: class, Facts: "fresh-process", Msg: msgOf(out), Event: 0,
+					Digest: "fresh", Tape: small, Desc: fin.Ctx.Desc, Trace: tail(fin.Ctx.L.Lines, 200), OrigTape: len(tp.Rec), FreshOnly: true}
+				path := filepath.Join(replayDir(), fmt.Sprintf("%s-%d-%d-fresh.json", *prop, *seed, r))
+				os.MkdirAll(filepath.Dir(path), 0o755)
+				b, _ := json.MarshalIndent(rf, "", " ")
+				os.WriteFile(path, b, 0o644)
+				res.Violations = append(res.Violations, violationRec{Run: r, Class: class, Facts: rf.Facts, Msg: rf.Msg, Replay: path, Shrunk: len(small), Execs: execs})
+			case code == 0:
+				if d := digestOf(out); d != "" && d != fmt.Sprintf("%016x", rr.Ctx.L.Digest) {
+					res.Violations = append(res.Violations, violationRec{Run: r, Class: *prop + "/run-differs-in-fresh-process", Facts: "fresh-process", Msg: fmt.Sprintf("run %d produces event digest %s in a fresh process but %016x after the earlier runs of this worker: a result depends on what was executed before in the process", r, d, rr.Ctx.L.Digest)})
+				}
+			default:
+				res.Harness = fmt.Sprintf("run %d: fresh-process execution failed (exit %d):\n%s", r, code, lastLines(out, 20))
+				code = 2
+			}
+			if len(res.Violations) > 0 || res.Harness != "" {
+				if res.Harness != "" {
+					code = 2
+				}
+				break
 			}
 		}
 		if rr.V != nil {
@@ -352,6 +401,11 @@ func runReplay(args []string) int {
 		fmt.Printf("REPLAY-CLEAN property=%s file=%s: the recorded tape no longer violates the property on this tree (recorded: %s)\n", rf.Property, *file, rf.Class)
 		return 3
 	}
+	if rf.FreshOnly && res.V.Class == rf.Class {
+		fmt.Printf("%s\n", res.V.String())
+		fmt.Printf("VIOLATION property=%s replay=%s\n", rf.Property, *file)
+		return 1
+	}
 	if res.V.Class != rf.Class || dg != rf.Digest || res.V.Msg != rf.Msg {
 		fmt.Printf("REPLAY-DIFFERS recorded class=%s digest=%s; now class=%s digest=%s\n  now: %s\n", rf.Class, rf.Digest, res.V.Class, dg, res.V.Msg)
 		if res.V.Class == rf.Class {
@@ -426,7 +480,7 @@ func runCheck(args []string) int {
 			race = true
 		}
 		out := filepath.Join(tmp, fmt.Sprintf("w%d.json", w))
-		cmd := exec.Command(bin, "worker", "-prop", *prop, "-seed", strconv.FormatUint(seed, 10), "-w", strconv.Itoa(w), "-W", strconv.Itoa(W), "-n", strconv.Itoa(N), "-tier", *tier, "-out", out, "-budget", budget.String())
+		cmd := exec.Command(bin, "worker", "-prop", *prop, "-seed", strconv.FormatUint(seed, 10), "-w", strconv.Itoa(w), "-W", strconv.Itoa(W), "-n", strconv.Itoa(N), "-tier", *tier, "-out", out, "-budget", budget.String(), "-fresh-every", strconv.Itoa(cfg.freshEvery))
 		cmd.Env = append(os.Environ(), "GORACE=halt_on_error=1 exitcode=66")
 		if cfg.singleProc {
 			cmd.Env = append(cmd.Env, "GOMAXPROCS=1")
@@ -883,12 +937,26 @@ func runExecTape() int {
 	}
 	b, _ := json.Marshal(res.Ctx.T.Rec)
 	fmt.Printf("TAPE %s\n", b)
+	fmt.Printf("DIGEST %016x\n", res.Ctx.L.Digest)
 	if res.V != nil {
 		fmt.Printf("CLASS %s\n", res.V.Class)
+		fmt.Printf("MSG %s\n", strings.ReplaceAll(res.V.Msg, "\n", " "))
 		return 1
 	}
 	return 0
 }
+
+func lineOf(out, prefix string) string {
+	for _, l := range strings.Split(out, "\n") {
+		if strings.HasPrefix(l, prefix) {
+			return strings.TrimPrefix(l, prefix)
+		}
+	}
+	return ""
+}
+func classOf(out string) string  { return lineOf(out, "CLASS ") }
+func msgOf(out string) string    { return lineOf(out, "MSG ") }
+func digestOf(out string) string { return lineOf(out, "DIGEST ") }
 
 // runTriage prints one minimised example per (class, facts) among n runs (development aid).
 func runTriage(args []string) int {
